@@ -104,7 +104,7 @@ func (x *exec) enterLoop(st *pstate, b, pred *ssa.BasicBlock, ord int) {
 	x.havocForLoop(st, b)
 	for _, phi := range phis {
 		s := x.p.T.SortOf(phi.Type())
-		nv := x.env.Fresh("loop$"+phi.Comment, s)
+		nv := x.env.FreshVal("loop$"+phi.Comment, s)
 		st.assume(x.p.T.Inv(nv, phi.Type(), 0), "type invariant of loop variable "+phi.Comment)
 		x.assumeAllocated(st, nv, phi.Type())
 		w := x.wrap(nv, phi.Type())
@@ -251,15 +251,18 @@ type target struct {
 
 func (x *exec) evalAssign(ev *Eval, a spec.Expr) target {
 	if c, ok := a.(*spec.Call); ok {
-		if id, ok := c.Fun.(*spec.Ident); ok && (id.Name == "spare" || id.Name == "content") {
+		if id, ok := c.Fun.(*spec.Ident); ok && (id.Name == "spare" || id.Name == "content" || id.Name == "backing") {
 			v := ev.Eval(c.Args[0])
 			sl, ok := v.T.Underlying().(*types.Slice)
 			if !ok {
 				ev.fail("%s() takes a slice", id.Name)
 			}
 			off, ln, cp := SlOff(v.Term), SlLen(v.Term), SlCap(v.Term)
-			if id.Name == "spare" {
+			switch id.Name {
+			case "spare":
 				return target{ref: SlRef(v.Term), lo: smt.BVAdd(off, ln), hi: smt.BVAdd(off, cp), elem: sl.Elem()}
+			case "backing":
+				return target{ref: SlRef(v.Term), lo: off, hi: smt.BVAdd(off, cp), elem: sl.Elem()}
 			}
 			return target{ref: SlRef(v.Term), lo: off, hi: smt.BVAdd(off, ln), elem: sl.Elem()}
 		}
@@ -319,7 +322,7 @@ func (x *exec) havocTarget(st *pstate, t target) {
 			return
 		}
 		s := x.p.T.SortOf(t.loc.Type())
-		nv := x.env.Fresh("havoc", s)
+		nv := x.env.FreshVal("havoc", s)
 		st.assume(x.p.T.Inv(nv, t.loc.Type(), 0), "type invariant of assigned location")
 		x.env.Store(st.heap, t.loc, nv)
 		return
@@ -525,7 +528,7 @@ func (x *exec) applyContract(st *pstate, c *Contract, callee *ssa.Function, args
 	}
 	for i, rt := range rtypes {
 		s := x.p.T.SortOf(rt)
-		rv := x.env.Fresh("ret$"+callee.Name(), s)
+		rv := x.env.FreshVal("ret$"+callee.Name(), s)
 		st.assume(x.p.T.Inv(rv, rt, 0), "type invariant of result of "+callee.Name())
 		x.assumeAllocated(st, rv, rt)
 		w := x.wrap(rv, rt)
@@ -817,7 +820,7 @@ func (x *exec) invoke(st *pstate, cc *ssa.CallCommon, args []Val, argTypes []typ
 		}
 	}
 	if name == "error" && cc.Method.Name() == "Error" {
-		r := x.env.Fresh("errstr", StrSort)
+		r := x.env.FreshVal("errstr", StrSort)
 		st.assume(x.p.T.Inv(r, types.Typ[types.String], 0), "type invariant")
 		return r
 	}
